@@ -15,7 +15,7 @@ func init() {
 		Rules: func(r *Run) {
 			ruleMO(r, 10)
 			rulePVGo(r)
-			ruleNoInPlaceValueMutation(r, []string{enginePkg, metricPkg}, 3)
+			ruleNoInPlaceValueMutation(r, []string{enginePkg, metricPkg}, 2)
 			ruleTemplatePerStage(r) // a template compiled for one evaluation is never reused by the next (its accessors are bound to the first stage instance)
 			ruleDistinct(r)         // the labels of distinct are examined in the order they were written
 			ruleJSONPathStateFresh(r)
